@@ -82,8 +82,8 @@ template <class Json> struct ParseScn : Scenario {
 };
 
 struct ParseDecoderScn : Scenario {
-    std::string doc;
-    void setup(const MVal& p) override { doc = sim::plan_text(p, "doc"); }
+    std::string doc, expected;
+    void setup(const MVal& p) override { doc = sim::plan_text(p, "doc"); json j = json::parse(doc); expected = text(j); }
     std::string run() override {
         json_decoder<json> dec;
         json_string_reader rd(doc, dec);
@@ -92,6 +92,30 @@ struct ParseDecoderScn : Scenario {
         return text(j);
     }
     std::string check(bool) override { return ""; }
+};
+
+// A decoder and a parser that outlive a failed parse must be reusable: the next parse gives the right value.
+struct DecoderReuseScn : Scenario {
+    std::string doc, other, expected_other;
+    json_decoder<json> dec;
+    json_parser parser;
+    void setup(const MVal& p) override { doc = sim::plan_text(p, "doc"); other = sim::plan_text(p, "doc2"); json j = json::parse(other); expected_other = text(j); }
+    std::string run() override {
+        dec.reset(); parser.reset();
+        parser.update(doc.data(), doc.size());
+        parser.parse_some(dec); parser.finish_parse(dec); parser.check_done();
+        json j = dec.get_result();
+        return text(j);
+    }
+    std::string check(bool) override {
+        dec.reset(); parser.reinitialize();
+        parser.update(other.data(), other.size());
+        parser.parse_some(dec); parser.finish_parse(dec); parser.check_done();
+        if (!dec.is_valid()) return "decoder reused after a failed parse has no result";
+        json j = dec.get_result();
+        if (text(j) != expected_other) return "decoder/parser reused after a failed parse gives " + text(j).substr(0, 200) + " instead of " + expected_other.substr(0, 200);
+        return "";
+    }
 };
 
 struct ParseCursorScn : Scenario {
@@ -304,6 +328,7 @@ void register_core(std::vector<Reg>& r) {
     r.push_back({"parse_ojson", maker<ParseScn<ojson>>, "doc"});
     r.push_back({"parse_decoder", maker<ParseDecoderScn>, "doc"});
     r.push_back({"parse_cursor", maker<ParseCursorScn>, "doc"});
+    r.push_back({"decoder_reuse", maker<DecoderReuseScn>, "doc doc2"});
     r.push_back({"copy_json", maker<CopyScn<json>>, "doc"});
     r.push_back({"copy_ojson", maker<CopyScn<ojson>>, "doc"});
     r.push_back({"assign_copy", maker<AssignScn<json, false>>, "kinds doc doc2"});
